@@ -13,6 +13,7 @@ import (
 	"strings"
 	"sync"
 	"testing"
+	"time"
 
 	"go.uber.org/zap"
 	"go.uber.org/zap/zapcore"
@@ -40,6 +41,20 @@ func (c *ctlSink) Close() error {
 	}
 	return nil
 }
+
+// ctlWrapSink forwards to another sink opened by its factory.
+type ctlWrapSink struct {
+	*ctlSink
+	inner      zapcore.WriteSyncer
+	closeInner func()
+}
+
+func (w *ctlWrapSink) Write(p []byte) (int, error) {
+	_, _ = w.inner.Write(p)
+	return w.ctlSink.Write(p)
+}
+func (w *ctlWrapSink) Sync() error  { _ = w.inner.Sync(); return w.ctlSink.Sync() }
+func (w *ctlWrapSink) Close() error { w.closeInner(); return w.ctlSink.Close() }
 
 // an encoder whose constructor fails, registered once per process
 var (
@@ -69,6 +84,20 @@ func ctlRegister(t interface{ Fatalf(string, ...any) }) {
 		err := zap.RegisterSink(ctlScheme, func(u *url.URL) (zap.Sink, error) {
 			if u.Host == "fail" {
 				return nil, errors.New("factory failed for " + u.Path)
+			}
+			if u.Host == "okreenter" {
+				// a wrapping sink: its factory itself uses the registry (opens another registered sink and
+				// tries to register a scheme) - factories run user code and may call back into zap
+				_ = zap.RegisterSink(ctlScheme, func(*url.URL) (zap.Sink, error) { return nil, nil }) // already registered: must fail, not block
+				inner, closeInner, err := zap.Open(fmt.Sprintf("%s://ok%s-inner", ctlScheme, u.Path))
+				if err != nil {
+					return nil, err
+				}
+				s := &ctlSink{name: u.String()}
+				ctlMu.Lock()
+				ctlOpened = append(ctlOpened, s)
+				ctlMu.Unlock()
+				return &ctlWrapSink{ctlSink: s, inner: inner, closeInner: closeInner}, nil
 			}
 			s := &ctlSink{name: u.String(), closeErr: u.Host == "okcloseerr"}
 			ctlMu.Lock()
@@ -134,7 +163,10 @@ func genC19Paths(t *rapid.T, dir, label string, max int) ([]c19Path, bool) {
 	allOK := true
 	for i := 0; i < n; i++ {
 		var p c19Path
-		switch rapid.IntRange(0, 10).Draw(t, label+"Kind") {
+		switch rapid.IntRange(0, 11).Draw(t, label+"Kind") {
+		case 11:
+			// a sink whose factory calls back into zap (Open, RegisterSink)
+			p = c19Path{path: fmt.Sprintf("%s://okreenter/%s%d", ctlScheme, label, i), kind: "ctl-reenter", ok: true}
 		case 10:
 			// opens fine; its Close reports an error (which must not keep the others from being closed)
 			p = c19Path{path: fmt.Sprintf("%s://okcloseerr/%s%d", ctlScheme, label, i), kind: "ctl-closeerr", ok: true}
@@ -173,6 +205,17 @@ func pathsOf(ps []c19Path) []string {
 }
 
 var c19Mu sync.Mutex
+
+// c19Watchdog runs f and reports a hang (a sink factory is user code and may call back into zap).
+func c19Watchdog(t interface{ Fatalf(string, ...any) }, what, desc string, f func()) {
+	done := make(chan struct{})
+	go func() { defer close(done); f() }()
+	select {
+	case <-done:
+	case <-time.After(20 * time.Second):
+		t.Fatalf("VERIF-DEADLOCK %s did not return within 20s\n%s", what, desc)
+	}
+}
 
 // propC19Open: Open / Config.Build fault sequences.
 func propC19Open(t *rapid.T) {
@@ -222,7 +265,10 @@ func propC19Open(t *rapid.T) {
 	}
 	switch mode {
 	case "open":
-		ws, closeFn, err := zap.Open(pathsOf(outs)...)
+		var ws zapcore.WriteSyncer
+		var closeFn func()
+		var err error
+		c19Watchdog(t, "Open", desc, func() { ws, closeFn, err = zap.Open(pathsOf(outs)...) })
 		if (err == nil) != outsOK {
 			t.Fatalf("Open error=%v, want success=%v\n%s", err, outsOK, desc)
 		}
@@ -259,6 +305,9 @@ func propC19Open(t *rapid.T) {
 			if strings.HasPrefix(p.kind, "ctl-") {
 				wantCtl++
 			}
+			if p.kind == "ctl-reenter" {
+				wantCtl++ // the wrapper and the sink its factory opened
+			}
 			if p.file != "" {
 				if b, _ := os.ReadFile(p.file); string(b) != "payload\n" {
 					t.Fatalf("file destination %s holds %q\n%s", p.file, b, desc)
@@ -289,7 +338,9 @@ func propC19Open(t *rapid.T) {
 			cfg.Encoding = failEncName // a registered encoder whose constructor returns an error
 			wantErr = true
 		}
-		lg, err := cfg.Build()
+		var lg *zap.Logger
+		var err error
+		c19Watchdog(t, "Config.Build", desc, func() { lg, err = cfg.Build() })
 		if (err != nil) != wantErr {
 			t.Fatalf("Build error=%v, want error=%v\n%s", err, wantErr, desc)
 		}
